@@ -219,6 +219,54 @@ class SimRaw(io.RawIOBase):
         return len(chunk)
 
 
+class SimText(io.TextIOBase):
+    """A caller-owned TEXT stream (e.g. over a pipe or socket) whose read(n) legally returns fewer
+    characters than asked for although more follow.  Line iteration goes through readline()."""
+
+    def __init__(self, text, chunks=None, fired=None):
+        super().__init__()
+        self._text = text
+        self._pos = 0
+        self._chunks = chunks or [7]
+        self._n = 0
+        self._fired = fired if fired is not None else {}
+
+    def readable(self):
+        return True
+
+    def seekable(self):
+        return True
+
+    def seek(self, off, whence=0):
+        self._pos = off if whence == 0 else (self._pos + off if whence == 1 else len(self._text) + off)
+        return self._pos
+
+    def tell(self):
+        return self._pos
+
+    def read(self, size=-1):
+        if size is None or size < 0:
+            out = self._text[self._pos:]
+            self._pos = len(self._text)
+            return out
+        c = max(1, self._chunks[self._n % len(self._chunks)])
+        self._n += 1
+        if c < size and self._pos + c < len(self._text):
+            self._fired["short_text_read"] = self._fired.get("short_text_read", 0) + 1
+        out = self._text[self._pos:self._pos + min(size, c)]
+        self._pos += len(out)
+        return out
+
+    def readline(self, size=-1):
+        i = self._text.find("\n", self._pos)
+        end = len(self._text) if i < 0 else i + 1
+        if size is not None and size >= 0:
+            end = min(end, self._pos + size)
+        out = self._text[self._pos:end]
+        self._pos = end
+        return out
+
+
 class SimFS(object):
     """path -> durable bytes, with a device plan per path.  `open` has the signature the
     name `open` has where mir_eval.io uses it: open(path, mode='r')."""
